@@ -163,6 +163,30 @@ func (sf *SpecFile) ParseSpecFile(path string) error {
 		}
 		switch r.kw {
 		case "ghost":
+			if strings.HasPrefix(strings.TrimSpace(r.text), "at ") {
+				// ghost at <anchor>: name = expr   (ghost assignment at a program point)
+				if cur == nil {
+					return fmt.Errorf("%s: 'ghost at' outside func", loc)
+				}
+				a, err := parseAssert(r.text, path, r.line)
+				if err != nil {
+					return fmt.Errorf("%s: %v", loc, err)
+				}
+				name, rhs, ok := strings.Cut(a.C.Text, "=")
+				if !ok || strings.HasPrefix(rhs, "=") {
+					return fmt.Errorf("%s: 'ghost at <anchor>: name = expr' expected", loc)
+				}
+				e, err := ParseSpecExpr(rhs)
+				if err != nil {
+					return fmt.Errorf("%s: %v", loc, err)
+				}
+				a.Update = strings.TrimSpace(name)
+				a.C.Expr = e
+				a.C.Kind = "ghost"
+				curLoop = nil
+				cur.Asserts = append(cur.Asserts, a)
+				continue
+			}
 			fs := strings.Fields(r.text)
 			if len(fs) < 3 || fs[0] != "var" {
 				return fmt.Errorf("%s: expected 'ghost var name Type'", loc)
